@@ -85,8 +85,15 @@ class SphinxRenderer(DocutilsRenderer):
         path_dest, *_path_ids = destination.split("#", maxsplit=1)
         path_id = _path_ids[0] if _path_ids else None
         explicit = (token.info != "auto") and (len(token.children or []) > 0)
-        _, abs_path = self.sphinx_env.relfn2path(path_dest, self.sphinx_env.docname)
-        docname = self.sphinx_env.path2doc(abs_path)
+        try:
+            _, abs_path = self.sphinx_env.relfn2path(
+                path_dest, self.sphinx_env.docname
+            )
+        except ValueError:
+            # e.g. the destination contains a null byte
+            abs_path, docname = path_dest, None
+        else:
+            docname = self.sphinx_env.path2doc(abs_path)
         if not docname:
             self.create_warning(
                 f"Could not find document: {abs_path}",
@@ -111,6 +118,17 @@ class SphinxRenderer(DocutilsRenderer):
         if destination.startswith("path:"):
             destination = destination[5:]
         destination = self._handle_relative_docs(destination)
+        try:
+            self.sphinx_env.relfn2path(destination, self.sphinx_env.docname)
+        except ValueError:
+            # e.g. the destination contains a null byte: sphinx could not collect such a file
+            self.create_warning(
+                f"Could not find file: {destination!r}",
+                MystWarnings.XREF_MISSING,
+                line=token_line(token, 0),
+                append_to=self.current_node,
+            )
+            return self.render_link_url(token)
         explicit = (token.info != "auto") and (len(token.children or []) > 0)
         wrap_node = addnodes.download_reference(
             refdomain=None,
